@@ -1,4 +1,6 @@
 import Ecal.Model.Interp
+import Ecal.Lemmas.Interp
+import Ecal.Model.InterpPristine
 /-!
 # C14 — string interpolation evaluates only the literal's own expressions, once
 
@@ -9,50 +11,6 @@ literal itself, anything.
 -/
 namespace Ecal.Props.C14
 open Ecal.Interp
-
-theorem splitOpen_spec : ∀ {s a b}, splitOpen s = some (a, b) →
-    s = a ++ 123 :: 123 :: b ∧ hasOpen a = false := by
-  intro s
-  induction s using splitOpen.induct with
-  | case1 => intro a b h; simp [splitOpen] at h
-  | case2 rest => intro a b h; simp [splitOpen] at h; obtain ⟨rfl, rfl⟩ := h; simp [hasOpen]
-  | case3 c rest hne ih =>
-    intro a b h
-    rw [splitOpen] at h
-    · cases hr : splitOpen rest with
-      | none => simp [hr] at h
-      | some p =>
-        obtain ⟨a', b'⟩ := p; simp [hr] at h; obtain ⟨rfl, rfl⟩ := h
-        obtain ⟨h1, h2⟩ := ih hr
-        refine ⟨by simp [h1], ?_⟩
-        rw [hasOpen]
-        · exact h2
-        · intro r hc ha
-          subst hc ha
-          exact hne (r ++ 123 :: 123 :: b') rfl (by simp [h1])
-    · intro rest' h1 h2; exact hne rest' h1 h2
-
-theorem splitClose_spec : ∀ {s a b}, splitClose s = some (a, b) →
-    s = a ++ 125 :: 125 :: b ∧ hasClose a = false := by
-  intro s
-  induction s using splitClose.induct with
-  | case1 => intro a b h; simp [splitClose] at h
-  | case2 rest => intro a b h; simp [splitClose] at h; obtain ⟨rfl, rfl⟩ := h; simp [hasClose]
-  | case3 c rest hne ih =>
-    intro a b h
-    rw [splitClose] at h
-    · cases hr : splitClose rest with
-      | none => simp [hr] at h
-      | some p =>
-        obtain ⟨a', b'⟩ := p; simp [hr] at h; obtain ⟨rfl, rfl⟩ := h
-        obtain ⟨h1, h2⟩ := ih hr
-        refine ⟨by simp [h1], ?_⟩
-        rw [hasClose]
-        · exact h2
-        · intro r hc ha
-          subst hc ha
-          exact hne (r ++ 125 :: 125 :: b') rfl (by simp [h1])
-    · intro rest' h1 h2; exact hne rest' h1 h2
 
 /-- The segments are *written in the literal*: putting the markers back around the code
     segments and concatenating gives the literal back, byte for byte. -/
@@ -82,15 +40,6 @@ theorem code_has_no_close (s : Str) : ∀ c, Seg.code c ∈ segments s → hasCl
 /-- C14 (once, left to right): whatever the substitutions return — even text full of
     markers — the calls made to `ev` are exactly the literal's own expressions, each
     once, in order. -/
-theorem foldl_log (ev : Str → Str) (segs : List Seg) (o : Str) (l : List Str) :
-    segs.foldl (logStep ev) (o, l) = (o ++ segs.flatMap (Seg.out ev), l ++ codes segs) := by
-  induction segs generalizing o l with
-  | nil => simp [codes]
-  | cons seg segs ih =>
-    cases seg with
-    | text t => simp [List.foldl, ih, Seg.out, logStep, codes]
-    | code c => simp [List.foldl, ih, Seg.out, logStep, codes]
-
 theorem calls_are_the_literals_own (ev : Str → Str) (s : Str) :
     (interpLog ev s).2 = evaluated s := by
   simp [interpLog, evaluated, foldl_log]
@@ -104,24 +53,6 @@ theorem interpLog_fst (ev : Str → Str) (s : Str) : (interpLog ev s).1 = interp
 theorem interp_is_concat (ev : Str → Str) (s : Str) :
     interp ev s = ((segments s).map (Seg.out ev)).flatten := by
   simp [interp, List.flatMap]
-
-theorem mem_codes : ∀ (segs : List Seg) (c : Str), Seg.code c ∈ segs → c ∈ codes segs := by
-  intro segs
-  induction segs with
-  | nil => intro c h; cases h
-  | cons seg segs ih =>
-    intro c h
-    cases seg with
-    | text t =>
-      simp only [codes]
-      rcases List.mem_cons.1 h with h | h
-      · cases h
-      · exact ih c h
-    | code c' =>
-      simp only [codes]
-      rcases List.mem_cons.1 h with h | h
-      · cases h; exact List.mem_cons_self
-      · exact List.mem_cons_of_mem _ (ih c h)
 
 /-- C14 (data cannot become code): two evaluators that agree on the literal's own
     expressions produce the same string — what a substitution returns has no influence on
@@ -145,17 +76,6 @@ theorem substitution_not_rescanned (ev ev' : Str → Str) (s : Str)
     cases seg with
     | text t => rfl
     | code c => simp only [Seg.out]; rw [hh c (List.mem_cons_self)]
-
-theorem evaluated_len (s : Str) : 4 * (evaluated s).length ≤ s.length := by
-  induction s using segments.induct with
-  | case1 s h1 => simp [evaluated, segments_none h1, codes]
-  | case2 s before afterOpen h1 h2 => simp [evaluated, segments_open_only h1 h2, codes]
-  | case3 s before afterOpen h1 code afterClose h2 ih =>
-    unfold evaluated at ih ⊢
-    simp [segments_both h1 h2, codes]
-    have := Ecal.Interp.splitOpen_len h1
-    have := Ecal.Interp.splitClose_len h2
-    omega
 
 /-- C14 (one pass, total): interpolation is a total function (structural recursion on the
     remaining suffix, accepted by the kernel) and evaluates at most `|literal| / 4`
@@ -188,5 +108,40 @@ example : evaluated [123,123,97,125,125,123,123,98,125,125] = [[97],[98]] := by
 -- "{{a{{b}}c}}" evaluates the single expression "a{{b"
 example : evaluated [123,123,97,123,123,98,125,125,99,125,125] = [[97,123,123,98]] := by
   rw [evaluated, segments_fuel]; decide
+
+end Ecal.Props.C14
+
+/-! ## Negative witnesses: the loop as it was before the repair violates the property -/
+namespace Ecal.Props.C14
+open Ecal.Interp Ecal.InterpPristine
+
+/-- `a` holds the text `{{b}}`, `b` holds `B`: the old loop evaluated the substituted text
+    again (`"{{a}}"` gave `B`), the one-pass model returns `{{b}}`. -/
+theorem rescan_witness :
+    let ev : Str → Str := fun c => if c = [97] then [123,123,98,125,125] else if c = [98] then [66] else [63]
+    loop ev 10 [123,123,97,125,125] = Out.ok [66] ∧
+    interp ev [123,123,97,125,125] = [123,123,98,125,125] := by
+  refine ⟨by decide, ?_⟩
+  rw [interp, segments_fuel]; decide
+
+/-- `"}} {{"` made the old loop slice out of range. -/
+theorem slice_panic_witness : loop (fun _ => []) 10 [125,125,32,123,123] = Out.panic := by decide
+
+/-- A value that reproduces itself (`c` holds `{{c}}`) kept the old loop running for ever:
+    no amount of fuel suffices. -/
+theorem self_reproducing_diverges (fuel : Nat) :
+    loop (fun _ => [123,123,99,125,125]) fuel [123,123,99,125,125] = Out.outOfFuel := by
+  induction fuel with
+  | zero => rfl
+  | succ n ih =>
+    have h : loop (fun _ => [123,123,99,125,125]) (n + 1) [123,123,99,125,125]
+        = loop (fun _ => [123,123,99,125,125]) n [123,123,99,125,125] := by
+      rw [loop]
+      have h1 : getInfix [123,123,99,125,125] = some (some [99]) := by decide
+      have h2 : replaceFirst (123 :: 123 :: [99] ++ [125, 125]) [123,123,99,125,125]
+          ([123,123,99,125,125].length + 1) [123,123,99,125,125] = [123,123,99,125,125] := by decide
+      simp only [h1]
+      rw [if_neg (by decide), h2]
+    rw [h, ih]
 
 end Ecal.Props.C14
